@@ -143,10 +143,11 @@ type jHolderOld struct {
 }
 
 // execJRT: (jrt position V [V2])
-//   top   : V is an object or array: Marshal at top level, Unmarshal into a fresh variable
-//   field : struct{A; M = V (object) ; L = V2 (array); Z}: round trip
-//   skip  : the same struct decoded into one without M and L: A and Z must survive
-//   desc  : descriptor walk of the top-level encoding rendered as JSON (hex)
+//
+//	top   : V is an object or array: Marshal at top level, Unmarshal into a fresh variable
+//	field : struct{A; M = V (object) ; L = V2 (array); Z}: round trip
+//	skip  : the same struct decoded into one without M and L: A and Z must survive
+//	desc  : descriptor walk of the top-level encoding rendered as JSON (hex)
 func execJRT(s *Sexp) string {
 	pos := s.List[1].Atom
 	v, err := parseJ(s.List[2])
